@@ -1,9 +1,6 @@
 package schema
 
-import (
-	"os"
-	"sort"
-)
+import "sort"
 
 // ForV1Manifest restricts a random manifest (in place) to what the root-module generation handles; it is applied by
 // the C12 harness for generation "v1" only, after the manifest has been drawn (both generations see the same draws,
@@ -25,9 +22,7 @@ import (
 //     struct and is unexported in the embedded record's package): the collection is keyed by string instead.
 func (s *Schema) ForV1Manifest() []string {
 	notes := s.ForV1()
-	if os.Getenv("VERIF_C12_NOACYCLIC") == "" { // TEMPORARY-EXPLORE
-		notes = append(notes, s.acyclicPackagesV1()...)
-	}
+	notes = append(notes, s.acyclicPackagesV1()...)
 	notes = append(notes, s.complexKeysV1()...)
 	s.Reindex()
 	return notes
